@@ -97,10 +97,10 @@ type sliceRef struct {
 }
 
 type bpVal struct {
-	bits  bvec
-	slice *sliceRef
-	ptr   *sliceRef // address of one byte: base/off
-	field string    // address of a struct field of a parameter: "$1.IHL"
+	bits      bvec
+	slice     *sliceRef
+	ptr       *sliceRef // address of one byte: base/off
+	field     string    // address of a struct field of a parameter: "$1.IHL"
 	fieldBits int
 }
 
